@@ -431,6 +431,7 @@ def _imports():
 
 
 BS = 2
+HISTORY_BUDGET_S = 20   # a history normally takes ~20 ms
 
 
 def mk_val(v):
@@ -968,9 +969,19 @@ def op_signature(op, ref):
 def run_history(args):
     """worker; never raises: an exception escaping the harness's own handling (e.g. RecursionError on a storage the
     implementation made cyclic) is itself reported as an oracle failure of the history"""
+    import signal
+
+    def on_alarm(signum, frame):
+        raise TimeoutError("history exceeded its time budget (non-terminating call?)")
+
     try:
         sys.setrecursionlimit(3000)
-        return run_history1(args)
+        signal.signal(signal.SIGALRM, on_alarm)
+        signal.alarm(HISTORY_BUDGET_S)
+        try:
+            return run_history1(args)
+        finally:
+            signal.alarm(0)
     except BaseException as e:  # noqa: BLE001
         hseed, nops, quick, subject, fixed_ops = args
         case = {"subject": subject, "init": ["n", []], "ops": [], "hseed": hseed, "nops": nops, "regenerate": fixed_ops is None}
